@@ -1,5 +1,6 @@
 import ModelD.Scsv
 import ModelD.ScsvTerse
+import ModelD.ScsvDomain
 import Driver.Proto
 import Std.Data.HashMap
 /-! driver ops for K29–K31 (`io.save_scsv`, `read_scsv`, `_validate_scsv_schema`,
@@ -236,6 +237,13 @@ def handle (toks : List String) : Option String :=
     match save o.ext s data with
     | .ok txt => some ("ok t" ++ hexOfStr txt)
     | .error e => some ("err " ++ errName e)
+  | "scsv-domain" :: rest =>
+    let (o, rest) := parseOracle rest
+    let (s, rest) := parseSchema rest
+    let data := parseData rest
+    let miss := saveNeeds o s data
+    if !miss.isEmpty then some ("miss " ++ " ".intercalate miss) else
+    some ("ok " ++ " ".intercalate (domainFailures o.ext s data))
   | "scsv-read" :: rest =>
     let (o, rest) := parseOracle rest
     match rest with
